@@ -123,6 +123,8 @@ pub fn fixed_corpus() -> Vec<(String, crate::esref::Flags)> {
         ("[]|[^]", ""),
         ("x*", ""),
         ("", ""),
+        // classes that are "everything but one code point" / "one end of the code space"
+        ("[^\u{1}-\u{10FFFF}]", ""), ("[^\u{0}-\u{10FFFE}]", "u"), ("a[^\u{1}-\u{10FFFF}]b", "i"), ("(?:[^\u{1}-\u{10FFFF}]|\u{10FFFF})+", "v"), ("[^\u{1}-\u{10FFFF}]*\u{10FFFF}", "iu"), ("(?<=[^\u{0}-\u{10FFFE}])[^\u{1}-\u{10FFFF}]", ""), ("[\u{0}-\u{10FFFF}]", ""), ("[^\u{0}-\u{10FFFF}]|\u{0}", "u"),
         // capture groups next to never-matching atoms (the optimizer must not drop group slots)
         ("(?!(a))[]|b(c)", ""),
         ("(?:[](?<!(x))|é)\\1é", ""),
